@@ -131,6 +131,14 @@ func toBytes(f net.Addr, fwdType int) []byte {
 // StartPFServer handles the PFControlTube and starts the appropriate PF
 // based on the client's PF information sent through the common.PFControlTube.
 func StartPFServer(ch *tubes.Reliable, forward *Forward, muxer *tubes.Muxer) {
+	StartPFServerAuthorized(ch, forward, muxer, nil)
+}
+
+// StartPFServerAuthorized is StartPFServer for sessions whose actions are
+// restricted: once the request has been parsed, authorize (if not nil) is asked
+// whether a forwarding of that type (PfLocal or PfRemote) may be started; an
+// error refuses the request.
+func StartPFServerAuthorized(ch *tubes.Reliable, forward *Forward, muxer *tubes.Muxer, authorize func(fwdType int) error) {
 
 	addr, fwdType, err := readPacket(ch)
 
@@ -138,6 +146,15 @@ func StartPFServer(ch *tubes.Reliable, forward *Forward, muxer *tubes.Muxer) {
 		ch.Write([]byte{failure})
 		ch.Close()
 		return
+	}
+
+	if authorize != nil {
+		if err := authorize(int(fwdType)); err != nil {
+			logrus.Errorf("PF: request refused: %v", err)
+			ch.Write([]byte{failure})
+			ch.Close()
+			return
+		}
 	}
 
 	switch fwdType {
